@@ -1,4 +1,18 @@
+//! vh-ops: operator-level engines. Each subcommand lives in its own module
+//! (owned by one builder): infer (C10), onnxref (C15), relational (C12 C13 C14).
+mod infer;
+mod onnxref;
+mod relational;
+
 fn main() {
-    eprintln!("usage: vh-ops <subcommand> [options]");
-    std::process::exit(2);
+    let cmd = std::env::args().nth(1).unwrap_or_default();
+    match cmd.as_str() {
+        "infer" => infer::main(),
+        "onnxref" => onnxref::main(),
+        "relational" => relational::main(),
+        _ => {
+            eprintln!("usage: vh-ops <infer|onnxref|relational> [options]");
+            std::process::exit(2);
+        }
+    }
 }
